@@ -757,17 +757,26 @@ class TransactionBuilder:
         self.fee = self._estimate_fee()
 
         if change_address:
-            self._outputs = original_outputs
-            changes = self._calc_change(
-                self.fee,
-                self.inputs,
-                self.outputs,
-                change_address,
-                precise_fee=True,
-                respect_min_utxo=change_output_index is None,
-            )
+            # The fee above was estimated with the preliminary change in place. The final change is larger
+            # (the fee dropped), so an amount may need more bytes than it did when the fee was estimated.
+            # Re-estimate until the fee covers the transaction it is part of.
+            while True:
+                self._outputs = deepcopy(original_outputs)
+                changes = self._calc_change(
+                    self.fee,
+                    self.inputs,
+                    self.outputs,
+                    change_address,
+                    precise_fee=True,
+                    respect_min_utxo=change_output_index is None,
+                )
 
-            _merge_changes(changes)
+                _merge_changes(changes)
+
+                final_fee = self._estimate_fee()
+                if final_fee <= self.fee:
+                    break
+                self.fee = final_fee
 
         return self
 
